@@ -22,7 +22,36 @@ def run_rules(prop: str, repo_root: str, tier: str) -> Context:
     repo = Repo(repo_root)
     ctx = Context(prop, repo, tier)
     mod = importlib.import_module(f"lsa.rules.{prop.lower()}")
-    mod.check(ctx)
+    try:
+        mod.check(ctx)
+    except AnalysisError as e:
+        # an anchored METHOD vanished while its class is still there: its behaviour is now
+        # inherited or gone -- a change of behaviour the check cannot vouch for (reported
+        # as an unproven obligation, exit 1).  A vanished class / function / module stays
+        # an analysis error (exit 2).
+        import re
+        m = re.match(r"method (\S+)\.(\w+) not found", str(e))
+        if not (m and m.group(1) in repo.classes):
+            raise
+        ci = repo.classes[m.group(1)]
+        ctx.ob(f"{prop}.R0", ci, f"the anchored method {ci.name}.{m.group(2)} is defined (the "
+                                 f"rules of this property interpret its body)", False,
+               unproven=True, detail=str(e), stmt=f"{ci.name}.{m.group(2)} vanished")
+        ctx.rule("R0", "every method a rule interprets exists on its class.")
+        ctx.min_failures.clear()
+    except (IndexError, KeyError, TypeError, AttributeError, ValueError, AssertionError):
+        # a matcher met a term shape it was not written for.  On the unchanged tree this
+        # never happens (the check passes); on a changed tree it means the anchored code
+        # no longer has a form the rules can interpret -- unproven, not "analysis broken".
+        tb = traceback.extract_tb(sys.exc_info()[2])
+        own = [f for f in tb if "/lsa/rules/" in f.filename] or list(tb)
+        where = f"{os.path.basename(own[-1].filename)}:{own[-1].lineno}"
+        ctx.ob(f"{prop}.R0", f"lsa.rules.{prop.lower()}", "the anchored code has a form the "
+               "rules of this property can interpret", False, unproven=True,
+               detail=f"matcher failed at {where}: {sys.exc_info()[0].__name__}: "
+                      f"{str(sys.exc_info()[1])[:120]}", stmt=f"uninterpretable structure at {where}")
+        ctx.rule("R0", "the anchored code has a form the rules can interpret.")
+        ctx.min_failures.clear()
     if not ctx.obligations:
         raise AnalysisError(f"{prop}: no obligation was evaluated")
     return ctx
